@@ -390,6 +390,137 @@ pub async fn run_history(h: &History) -> Vec<(String, String)> {
     problems
 }
 
+/// many sessions ending at the same instant (more than any internal queue of the server holds):
+/// afterwards the server must still count live sessions only - `n - 1` new connections fit next
+/// to the one that stayed, and one more evicts exactly the oldest
+pub async fn run_burst_case(tls: bool, n: usize) -> Vec<(String, String)> {
+    let mut problems: Vec<(String, String)> = vec![];
+    let (handle, addr, app) = if tls {
+        let c = Cell { min13: false, self_signed: false, authz: false, rodbus_is_server: true, peer: PeerVersions::Both, cert: CertKind::Valid, spawn: false, ctor: 0 };
+        match start_tls_server(&c, "ca_a", AddressFilter::Any, "127.0.0.1", n).await {
+            Ok(s) => (s.handle, s.addr, s.app),
+            Err(e) => return vec![("MACHINERY:server-start".into(), e)],
+        }
+    } else {
+        let app = net_app(&[1]);
+        let (listener, addr) = listen("127.0.0.1").await;
+        let (handle, task) = create_tcp_server_task(n, listener, app.map.clone(), AddressFilter::Any, DecodeLevel::nothing());
+        tokio::spawn(task.run());
+        (handle, addr, app)
+    };
+    let mut tx: u16 = 0x3000;
+    let mut conns: Vec<Conn> = vec![];
+    let connect_n = |k: usize| k;
+    let _ = connect_n;
+    let result: Result<(), (String, String)> = async {
+        for i in 0..n {
+            let s = peer_connect(addr, tls, false).await.map_err(|e| ("connect-refused".to_string(), format!("connection {i}: {e}")))?;
+            conns.push(Conn { stream: Some(s), live: true, stalled: false, silent: false, half: None, eof_seen: false });
+            tx = tx.wrapping_add(1);
+            sentinel(&mut conns[i], tx).await.map_err(|e| ("request-not-served".to_string(), format!("connection {i} of {n}: {e}")))?;
+        }
+        // all but the first go away at the same instant
+        let rest: Vec<Conn> = conns.drain(1..).collect();
+        drop(rest);
+        if !wait_sessions(&app, 1).await {
+            return Err(("session-not-released".into(), format!("{} sessions ended at once; the server still holds more than one", n - 1)));
+        }
+        tokio::time::sleep(Duration::from_millis(30)).await;
+        // n - 1 new sessions fit next to the old one
+        for i in 1..n {
+            let s = peer_connect(addr, tls, false).await.map_err(|e| ("connect-refused".to_string(), format!("new connection {i}: {e}")))?;
+            conns.push(Conn { stream: Some(s), live: true, stalled: false, silent: false, half: None, eof_seen: false });
+            tx = tx.wrapping_add(1);
+            sentinel(&mut conns[i], tx).await.map_err(|e| ("request-not-served".to_string(), format!("new connection {i} of {}: {e}", n - 1)))?;
+        }
+        for i in 0..n {
+            tx = tx.wrapping_add(1);
+            sentinel(&mut conns[i], tx).await.map_err(|e| ("live-session-disturbed".to_string(), format!("after {} sessions had ended at once and {} new ones had connected ({n} live, limit {n}), connection {i} is no longer served: {e}", n - 1, n - 1)))?;
+        }
+        // one more: exactly the oldest goes
+        let s = peer_connect(addr, tls, false).await.map_err(|e| ("connect-refused".to_string(), format!("connection over the limit: {e}")))?;
+        conns.push(Conn { stream: Some(s), live: true, stalled: false, silent: false, half: None, eof_seen: false });
+        tx = tx.wrapping_add(1);
+        sentinel(&mut conns[n], tx).await.map_err(|e| ("request-not-served".to_string(), format!("connection over the limit: {e}")))?;
+        expect_eof(&mut conns[0]).await.map_err(|e| ("session-not-closed".to_string(), format!("the oldest session should have been evicted: {e}")))?;
+        for i in 1..=n {
+            tx = tx.wrapping_add(1);
+            sentinel(&mut conns[i], tx).await.map_err(|e| ("live-session-disturbed".to_string(), format!("after the eviction of the oldest, connection {i} is no longer served: {e}")))?;
+        }
+        Ok(())
+    }
+    .await;
+    if let Err(e) = result {
+        problems.push(e);
+    }
+    drop(conns);
+    let _ = tokio::time::timeout(Duration::from_millis(500), handle.shutdown()).await;
+    problems
+}
+
+pub fn burst_close_phase(thorough: bool) -> Stats {
+    let mut cases: Vec<(bool, usize)> = vec![(false, 9), (false, 10), (false, 12), (false, 17), (true, 10)];
+    if thorough {
+        cases.extend([(false, 11), (false, 13), (false, 24), (false, 40), (true, 9), (true, 17)]);
+    }
+    // every case twice: on the shared multi-thread runtime, and on a single-threaded runtime of its
+    // own, where all the sessions that were woken by the same turn of the I/O driver run to their
+    // end before the server task is polled again (the ends really are simultaneous for it)
+    let cases: Vec<(bool, usize, bool)> = cases.iter().flat_map(|(t, n)| [(*t, *n, false), (*t, *n, true)]).collect();
+    let cases = Arc::new(cases);
+    let results: Arc<std::sync::Mutex<Vec<(usize, Vec<(String, String)>)>>> = Arc::new(std::sync::Mutex::new(vec![]));
+    let run_single = |tls: bool, n: usize| -> Vec<(String, String)> {
+        std::thread::spawn(move || match tokio::runtime::Builder::new_current_thread().enable_all().build() {
+            Ok(rt1) => rt1.block_on(run_burst_case(tls, n)),
+            Err(e) => vec![("MACHINERY:runtime".to_string(), e.to_string())],
+        })
+        .join()
+        .unwrap_or_else(|_| vec![("MACHINERY:burst-thread".to_string(), "panicked".to_string())])
+    };
+    for i in 0..cases.len() {
+        let (tls, n, single) = cases[i];
+        let run = |_: ()| if single { run_single(tls, n) } else { rt().block_on(run_burst_case(tls, n)) };
+        let mut r = run(());
+        if !r.is_empty() {
+            let r2 = run(());
+            let r3 = run(());
+            if r2.is_empty() || r3.is_empty() {
+                r = vec![];
+            }
+        }
+        results.lock().unwrap().push((i, r));
+    }
+    let mut st = Stats::default();
+    let mut res = results.lock().unwrap().clone();
+    res.sort_by_key(|x| x.0);
+    for (i, problems) in res {
+        let (tls, n, single) = cases[i];
+        st.evaluations += 1;
+        st.traces += 1;
+        st.transitions += 3 * n as u64;
+        st.class("burst-of-session-ends");
+        st.observe(&(tls, n, single, problems.len()));
+        for (sig, desc) in problems {
+            st.violation(Violation {
+                signature: format!("{sig}:burst-close"),
+                summary: format!("max_sessions={n} tls={tls} ({} runtime): {n} sessions, {} of them closed at the same instant, {} new ones: {desc}", if single { "single-threaded" } else { "multi-thread" }, n - 1, n - 1),
+                replay: json!({"kind": "c15-burst", "tls": tls, "n": n, "single": single}),
+            });
+        }
+    }
+    st
+}
+
+pub fn replay_burst(v: &serde_json::Value) -> Vec<(String, String)> {
+    let (tls, n) = (v["tls"].as_bool().unwrap(), v["n"].as_u64().unwrap() as usize);
+    let r = if v["single"].as_bool().unwrap_or(false) {
+        std::thread::spawn(move || tokio::runtime::Builder::new_current_thread().enable_all().build().unwrap().block_on(run_burst_case(tls, n))).join().unwrap()
+    } else {
+        rt().block_on(run_burst_case(tls, n))
+    };
+    r.into_iter().map(|(s, d)| (format!("{s}:burst-close"), d)).collect()
+}
+
 fn enabled(h: &[SEv], tls: bool, max_conn: usize) -> Vec<SEv> {
     // replay the reference tracker to know which connections exist / are live
     let mut live: Vec<bool> = vec![];
@@ -675,6 +806,9 @@ pub fn check_c15(tier: &str) -> i32 {
         }
     }
     rep.phase("histories", st, json!({"histories": hist.len()}));
+    let st = burst_close_phase(thorough);
+    rep.phase("bursts: up to 39 sessions ending at the same instant, then as many new ones", st, json!({"max_sessions": if thorough { "9..40" } else { "9..17" }}));
+    rep.require_class("burst-of-session-ends");
     for c in ["ev:connect", "ev:close", "ev:request", "ev:garbage", "ev:half-frame", "ev:set-decode", "ev:set-decode-x9", "ev:stall", "ev:shutdown", "ev:drop-handle", "ev:silent-tls-peer", "ev:filtered-peer"] {
         rep.require_class(c);
     }
